@@ -47,6 +47,31 @@ func (a Obs) equal(b Obs) bool {
 	return true
 }
 
+// diff lists the elements on which two observations differ (at most eight).
+func (a Obs) diff(b Obs) string {
+	if a.Err != b.Err {
+		return fmt.Sprintf("error: %v, baseline: %v", a.Err, b.Err)
+	}
+	var out []string
+	for k, v := range a.Elems {
+		if w, ok := b.Elems[k]; !ok {
+			out = append(out, fmt.Sprintf("%s=%v (not in the baseline)", k, v))
+		} else if !run.FloatEq(v, w) {
+			out = append(out, fmt.Sprintf("%s=%v (baseline %v)", k, v, w))
+		}
+	}
+	for k, w := range b.Elems {
+		if _, ok := a.Elems[k]; !ok {
+			out = append(out, fmt.Sprintf("%s missing (baseline %v)", k, w))
+		}
+	}
+	sort.Strings(out)
+	if len(out) > 8 {
+		out = out[:8]
+	}
+	return strings.Join(out, "; ")
+}
+
 func (a Obs) String() string {
 	if a.Err {
 		return "error"
